@@ -141,7 +141,7 @@ void h_int64(void)
     __CPROVER_assert(!(r == 0 && pre_ok && K >= 1), "reach: rejected because the value does not fit");
     __CPROVER_assert(!(r == 0 && pre_ok && K == 0), "reach: rejected because there is no digit");
     __CPROVER_assert(!(r != 0 && W[K] == TWO63 - 1), "reach: accepted INT64_MAX");
-    __CPROVER_assert(!(r != 0 && K >= 25 && W[K] > 1000), "reach: accepted with many leading zeros");
+    __CPROVER_assert(!(r != 0 && K >= 21 && W[K] > 1000 && W[K] < 100000), "reach: accepted with many leading zeros");
 #if SIGN
     __CPROVER_assert(!(r != 0 && neg && result < 0), "reach: accepted a negative value");
     __CPROVER_assert(!(r == 0 && !pre_ok), "reach: rejected a bare sign");
